@@ -380,7 +380,7 @@ fn main() {
     // third family: long texts (lengths around the powers of two a size threshold would sit at) of
     // repeated symbols of mixed widths
     for n in tu_verif::enumerate::threshold_lengths(run.pick(6, 8)) {
-        for pat in [&["a"][..], &["a", "ä", "😀"][..], &["e\u{301}", "a", "\r", "\n"][..]] {
+        for pat in [&["a"][..], &["a", "ä", "😀"][..], &["e\u{301}", "a", "\r", "\n"][..], &["\u{0}", "a", "\u{10ffff}"][..]] {
             all.push(tu_verif::enumerate::repeat_symbols(pat, n));
         }
     }
